@@ -85,6 +85,17 @@ def model(ai, st, bi, ce, args, atys, dty, key):
         return pure(slice_val(ai, st, ln, key))
     if p in TO_VEC or (last in ("to_vec", "to_owned", "into_vec") and "slice" in p):
         return pure(("vec", L()))
+    if p in ("core::convert::From::from", "core::convert::Into::into"):
+        from facts import short as _short
+        sf = _short(full)
+        m = re.search(r"<&(?:mut )?\[u8\] as Into<&(?:mut )?GenericArray<u8, U(\d+)>>>|<&(?:mut )?GenericArray<u8, U(\d+)> as From<&(?:mut )?\[u8\]>>", sf)
+        if m:
+            n = int(m.group(1) or m.group(2))
+            cond = B("Eq", L(), K(n))
+            ok = ai.tri(st, cond) is True
+            ai.site(bi, "call", p, ok, f"&[u8] -> &GenericArray<u8, U{n}> panics unless the slice is exactly {n} bytes: " + show(ai, st, cond))
+            ai.refine(st, cond, True)
+            return pure(("s", K(n)))
     if p in ("core::convert::From::from", "core::convert::Into::into") and dty is not None:
         dt = ai.ty(dty)
         if dt["k"] == "adt" and dt["path"] in ("alloc::vec::Vec", "alloc::boxed::Box") and (is_slice_ref(ai, t0) or (isinstance(ai.load(st, a0), tuple) and ai.load(st, a0) and ai.load(st, a0)[0] in ("vec", "s", "a"))):
